@@ -82,6 +82,13 @@ type c20Env struct {
 	inQfull                                                     atomic.Bool
 	hookCtr, hookHandoff, hookRefused, hookRelease, lostWakeups atomic.Uint64
 
+	// file != "": the progress report lives in a real file at this path (written and read with dae's
+	// own progress-file functions, as the daemon does), so that the `dae reload` client code, which
+	// works on the file, shares it with the daemon side. Empty: in-memory cell.
+	file   string
+	ioErrs atomic.Int64
+	calm   bool // scripted single-goroutine histories: no random delays at suspension points
+
 	mu        sync.Mutex
 	attempts  []c20Attempt
 	releases  []c20Release
@@ -125,6 +132,11 @@ func c20InstallTaps() func() {
 		if e == nil {
 			return nil
 		}
+		if e.file != "" {
+			if err := writeSignalProgressFile(e.file, code, content); err != nil {
+				e.ioErrs.Add(1)
+			}
+		}
 		e.mu.Lock()
 		e.progSet, e.progCode, e.progMsg = true, code, content
 		st := e.clock.Add(1)
@@ -142,6 +154,11 @@ func c20InstallTaps() func() {
 		e := c20Cur.Load()
 		if e == nil {
 			return 0, "", os.ErrNotExist
+		}
+		if e.file != "" {
+			code, msg, err := readSignalProgressFile(e.file)
+			c20Perturb(e)
+			return code, msg, err
 		}
 		e.mu.Lock()
 		set, code, msg := e.progSet, e.progCode, e.progMsg
@@ -231,6 +248,9 @@ func c20InstallTaps() func() {
 
 // c20Perturb yields/sleeps by a fixed pseudo-random sequence at suspension points.
 func c20Perturb(e *c20Env) {
+	if e.calm {
+		return
+	}
 	x := (e.hookCtr.Add(1) * 0x9e3779b97f4a7c15) >> 58 // 0..63, fixed sequence
 	switch {
 	case x < 40:
@@ -253,7 +273,40 @@ func c20NewEnv(log *logrus.Logger) *c20Env {
 	return e
 }
 
+// c20NewEnvFile: like c20NewEnv, with the progress report in a real file (what Run writes once the
+// daemon is ready: ReloadDone, no text).
+func c20NewEnvFile(log *logrus.Logger, path string) *c20Env {
+	e := &c20Env{log: log, file: path}
+	e.m = newReloadManager(make(chan reloadRequest, 1), make(chan struct{}, 1), make(chan os.Signal, 1))
+	e.progSet, e.progCode = true, consts.ReloadDone
+	if err := os.WriteFile(path, []byte{consts.ReloadDone}, 0644); err != nil {
+		e.ioErrs.Add(1)
+	}
+	c20Cur.Store(e)
+	return e
+}
+
+// c20ReadProgressFile parses the documented progress-file layout (one code byte, optionally a
+// newline and a text) without dae's reader.
+func c20ReadProgressFile(path string) (byte, string, bool) {
+	b, err := os.ReadFile(path)
+	if err != nil || len(b) == 0 {
+		return 0, "", false
+	}
+	if len(b) == 1 {
+		return b[0], "", true
+	}
+	if b[1] != '\n' {
+		return 0, string(b), false
+	}
+	return b[0], string(b[2:]), true
+}
+
 func (e *c20Env) progress() (byte, string) {
+	if e.file != "" {
+		c, msg, _ := c20ReadProgressFile(e.file)
+		return c, msg
+	}
 	e.mu.Lock()
 	defer e.mu.Unlock()
 	return e.progCode, e.progMsg
